@@ -85,7 +85,8 @@ CLAIMED = {
         'unbounded queues; send refuses oversize messages and a full window and otherwise appends I(N(S)=V(S)); an I '
         'PDU is accepted iff N(S)==V(R) and it fits the MIU, is appended at the tail, else FRMR; acknowledgements carry '
         'N(R)=V(RA) (also the RR/RNR that announces a busy-state change), a PDU that does not fit the frame stays at '
-        'the head of the send queue; connect/accept adopt the peer\'s MIU and RW; sequence state is written only under '
+        'the head of the send queue; connect/accept adopt the peer\'s MIU and RW and the endpoint they establish starts '
+        'inside the invariant (fresh counters, receive buffer == receive window); sequence state is written only under '
         'the lock.',
    design_ref='DESIGN.md Part A sections A.4 (this property), A.8',
    note='Per endpoint only: each method is one atomic step (lock discipline is checked); peer conformance (N(R) within '
@@ -137,7 +138,8 @@ CLAIMED = {
         'satisfies the precondition of the non-recursive decode summary, which is justified by the C11 case contracts), '
         'every TLV loop has a variant; ParameterExchange.decode yields parameters within their field widths; '
         'llc.activate returns a bool for arbitrary general bytes in both roles; Type3TagEmulation.process_command '
-        'returns a response or None for every command (block-list parsers bounded to 2 services/2 blocks, not counted); '
+        'returns a response or None for every command (block-list parsers bounded to 2 services/2 blocks, and to one '
+        'service with up to 16 two-byte block list elements so that every status-flag position occurs; not counted); '
         'SnepServer.process_snep_request answers every complete request of any content (request code, length field) '
         'and raises nothing. DataLinkConnection.enqueue, for every PDU type the peer may address to a connection in any '
         'state, never reaches a wait() without timeout (it runs in the link thread); str(pdu) of every PDU type raises '
@@ -158,8 +160,9 @@ CLAIMED = {
         'nothing but IOError(ENODEV) and releases its lock on every path. rcs380 send_rsp_recv_cmd: the error kind '
         'follows the status bits (RF_OFF: BrokenLinkError whatever else is set, else receive timeout: TimeoutError, '
         'else TransmissionError). pn53x in_data_exchange raises the 6-bit error code of its bit-field status octet (so '
-        '"errno 1 is a timeout" holds with MI/NAD bits set); Chipset.command\'s own contract (C14) is an obligation of '
-        'this check too.',
+        '"errno 1 is a timeout" holds with MI/NAD bits set); an rcs380 response with a non-zero status is never returned '
+        'as data; the host transport may fail on write as well as on read; Chipset.command\'s own contract (C14) is an '
+        'obligation of this check too.',
    design_ref='DESIGN.md Part A sections A.4 (this property), A.8',
    note='Assumed: a well-framed response carries the payload length its command defines; pn532 TT1 bit-reversal path '
         'and the CRC check are assumed total. Not covered: pn531/pn533/rcs956/acr122/arygon specific overrides, udp, '
@@ -180,7 +183,9 @@ CLAIMED = {
         'from a callback or another thread). connect(): TypeError iff an option is not a dict; None when no option survives '
         'on-startup. A DEP target with a documented-valid ATR_REQ (16..64 octets) is handed to the driver; llc.activate() '
         'is true exactly when THIS activation installed its MAC, whatever an earlier attempt on the same link '
-        'controller left behind.',
+        'controller left behind. dep.Initiator.deactivate() - the last step of the link loop that _llcp_connect takes as '
+        'returning or raising IOError - sends exactly one RLS_REQ/DSL_REQ and returns None whatever the peer answers '
+        '(log-call argument expressions on that path are evaluated, not skipped).',
    design_ref='DESIGN.md Part A sections A.4 (this property), A.8',
    note='Driver, tag activation/emulation are environment models/assumed contracts; callbacks return documented types; '
         'the activation loop over several iterations and "ends promptly" (time) are not covered; '
@@ -219,7 +224,9 @@ CLAIMED = {
         'HandoverClient.send_octets: fragments are the message in order, none longer than the socket MIU; recv_octets '
         'returns exactly the octets received so far, only after the strict completeness probe accepted them. The '
         'per-operation contracts of the data link connection (C05) are obligations of this check too: they are what '
-        'justifies the FIFO socket model on each endpoint.',
+        'justifies the FIFO socket model on each endpoint; so are the C10 contracts of llc.collect(), '
+        'ServiceAccessPoint.dequeue, DataLinkConnection.send and llc.connect (fragments are sized by the send MIU and '
+        'the link collects against that same limit).',
    design_ref='DESIGN.md Part A sections A.4 (this property), A.8',
    note='The socket is an environment model (C05 is its justification); ndef encode/decode are not inspected. Not '
         'covered: SnepClient.put/get header construction, the ndeflib '
@@ -236,7 +243,9 @@ CLAIMED = {
         'recvfrom/sendto/poll, RAP recv/poll, ServiceDiscovery.resolve), if the link terminates while the caller '
         'waits, the call returns or raises nfc.llcp.Error and does not wait again. llc.exchange returns a PDU or None '
         'for every MAC outcome and every queued PDU including ones that can not be encoded (an escaping EncodeError '
-        'would end the run loop without terminate()).',
+        'would end the run loop without terminate()). terminate() reaches sockets only through llc.sap[addr].sock_list: '
+        'the table contracts of close and bind (C17: an open bound socket stays listed, an access point goes only with '
+        'its last socket) are obligations of this check too.',
    design_ref='DESIGN.md Part A sections A.4 (this property), A.8',
    note='NOT decided (outside this technique family): that a blocked thread is actually woken under every schedule, '
         'bounded time, connect() returning, service threads exiting. "Terminates while waiting" is modelled as the '
@@ -280,7 +289,8 @@ CLAIMED = {
         'block is an interface obligation): first attempt of a single-block command lost or corrupted -> R(NAK), the '
         'retransmitted response is returned once; R(ACK) lost while chaining -> R(NAK), repeated R(ACK), the next block '
         'carries the rest with the toggled number; second block lost -> R(NAK), R(ACK) with the old number, the very '
-        'same block is sent again.',
+        'same block is sent again; S(WTX) request between the blocks of a chained response -> S(WTX) response, the '
+        'remaining blocks are appended (this contract found the defect repaired in 29ff1a4).',
    design_ref='DESIGN.md Part A sections A.4 (this property), A.8',
    note='NOT decided: at-most-once execution and complete response under fault scripts (needs a card role model '
         'over histories; the loops are verified only for safety), termination of the WTX / retransmit-after-ACK '
@@ -307,7 +317,11 @@ CLAIMED = {
         'the message area behind the TLV header (the lock/OTP octets 104..127 of every dynamic memory Type 1 Tag, a '
         'memory control TLV of a Type 2 Tag) both writers are proved too: the data loop carries the closed form of '
         '"value octets skip the range" as its invariant, the skip-jump loop has its own invariant and variant, the '
-        'fresh reader (independent view with the range skipped) finds exactly the message. Layouts with several '
+        'fresh reader (independent view with the range skipped) finds exactly the message. Facts the write contracts '
+        'start from are obligations too: the Type 2 reader refinement over several sectors (page = (index >> 2) & 255 in '
+        'sector index >> 10), sector_select changing _current_sector exactly when the tag switched (C16), and the public '
+        'format()/protect() wrappers of every tag class dropping the cached NDEF object when the type specific '
+        'formatter reports success (so no write goes through a pre-format view). Layouts with several '
         'reserved ranges inside the message area are '
         'bounded stand-ins (real code under CPython on 23/44 fixed layouts x boundary lengths, independent TLV reader); '
         'the control-TLV helpers get_lock_byte_range/get_rsvd_byte_range of both tag types are proved against the '
@@ -327,7 +341,9 @@ CLAIMED = {
         'message and previous content, inside the write loops by invariant; the final state satisfies it too. '
         'Type 4 is stated for MLc >= NLEN field size (with a smaller MLc no command sequence can commit the length '
         'atomically). Type 1/2 are bounded stand-ins (every cut point of every write on 23/44 layouts) and not counted: '
-        'the cut-point queries over img[0:u*j] + mem[u*j:] did not discharge within the budget.',
+        'the cut-point queries over img[0:u*j] + mem[u*j:] did not discharge within the budget. Proved for Type 2: a WRITE '
+        'that fails anywhere in synchronize() leaves the memory reader consistent with the tag (what it believes to be '
+        'on the tag is on the tag), so a repeated write behaves as specified.',
    design_ref='DESIGN.md Part A sections A.4 (this property), A.8',
    note='Atomicity of one command on the tag is assumed (a block-list write / UPDATE BINARY happens entirely or not '
         'at all). Same environment models and well-formedness as C01.',
@@ -341,8 +357,9 @@ CLAIMED = {
         'outside the message area): after every prefix of every synchronize() nothing before the NDEF length field and '
         'nothing behind the data area differs from before (interface obligation of the abstract image at each of the '
         'three flushes); Type 1 likewise; with one reserved range inside the message area the octets of that range keep '
-        'their value as well (both tag types). Layouts with several reserved ranges inside the area are bounded '
-        'stand-ins and not counted.',
+        'their value as well (both tag types). The sector-select contract (C16) and the format()/protect() wrapper '
+        'contracts (cached NDEF object dropped after a successful format) are obligations here as for C01. Layouts with '
+        'several reserved ranges inside the area are bounded stand-ins and not counted.',
    design_ref='DESIGN.md Part A sections A.4 (this property), A.8',
    note='Same environment models as C01. Type 3 format() (tt3_sony FelicaLite) and Type 1/2 _format are not covered.',
    technique='contract-based deductive verification: frame conditions on ghost tag memory (pyvc)'),
